@@ -67,6 +67,15 @@ theorem api_roundtrip_f32 (v : BitVec 32) : DecodeF32 (EncodeF32 v) = v ∧ Enco
     simp only [BitVec.toNat_ushiftRight, BitVec.toNat_setWidth, Nat.shiftRight_eq_div_pow, BitVec.toNat_ofNat]
     omega
 
+/-- The 32-bit encoders are injective: two different values never share a slot (corollary of the round trips), so a
+value handed to the guest cannot be confused with another one on the way. -/
+theorem api_encode_injective (v w : BitVec 32) :
+    (EncodeI32 v = EncodeI32 w → v = w) ∧ (EncodeU32 v = EncodeU32 w → v = w) ∧ (EncodeF32 v = EncodeF32 w → v = w) := by
+  refine ⟨fun h => ?_, fun h => ?_, fun h => ?_⟩
+  · rw [← api_roundtrip_i32 v, h, api_roundtrip_i32]
+  · rw [← api_roundtrip_u32 v, h, api_roundtrip_u32]
+  · rw [← (api_roundtrip_f32 v).1, h, (api_roundtrip_f32 w).1]
+
 /-! ## Part 1b: float32 through float64 -/
 
 theorem or_quietBit_of_set (b : BitVec 32) (h : b.getLsbD 22 = true) : b ||| quietBit = b := by
